@@ -533,7 +533,22 @@ func addHoles(t *rapid.T, label string, loops *[][]kit.V2, c kit.V2, R float64, 
 	}
 }
 
-var families = []string{"convex", "star", "zigzag", "monotone", "comb", "spiral", "dart"}
+var families = []string{"convex", "star", "zigzag", "monotone", "comb", "spiral", "dart", "tri1side"}
+
+// tri1sideOutline: a triangle one side of which is subdivided by 1-4 further vertices; all vertices but the apex
+// lie on one line, so whichever vertices a routine looks at first, at most one of them is off that line.
+func tri1sideOutline(t *rapid.T, label string) outline {
+	a := kit.V2{0, 0}
+	b := kit.V2{gen.F(t, 1.5, 6, label+".w"), gen.F(t, -0.5, 0.5, label+".by")}
+	c := kit.V2{gen.F(t, -1, 5, label+".cx"), gen.F(t, 0.4, 3, label+".h")}
+	k := rapid.IntRange(1, 4).Draw(t, label+".k")
+	pts := []kit.V2{a}
+	for i := 0; i < k; i++ {
+		f := (float64(i) + gen.F(t, 0.2, 0.8, label+".f")) / float64(k)
+		pts = append(pts, a.Add(b.Sub(a).Scale(f)))
+	}
+	return outline{pts: append(pts, b, c)}
+}
 
 // dartOutline: a triangle A, B, C with a fourth vertex D strictly inside it inserted between A and B: the
 // quadrilateral A, D, B, C is simple and not convex (reflex at D).  The smallest polygons with a reflex vertex —
@@ -578,6 +593,8 @@ func genOutline(t *rapid.T, label, family string) outline {
 		return spiralOutline(t, label)
 	case "dart":
 		return dartOutline(t, label)
+	case "tri1side":
+		return tri1sideOutline(t, label)
 	}
 	panic("unknown family " + family)
 }
@@ -589,7 +606,9 @@ func genSimple(t *rapid.T, label string) shape {
 	fam := rapid.SampledFrom(families).Draw(t, label+".family")
 	o := genOutline(t, label, fam)
 	pts := o.pts
-	if fam != "dart" || rapid.IntRange(0, 2).Draw(t, label+".dartruns") == 0 {
+	if fam == "tri1side" {
+		// as it is: the point of the family is that only one side has further vertices
+	} else if fam != "dart" || rapid.IntRange(0, 2).Draw(t, label+".dartruns") == 0 {
 		pts = addRuns(t, label+".runs", o.pts, 3)
 	}
 	s := shape{Family: fam, Loops: [][]kit.V2{pts}}
